@@ -27,10 +27,10 @@ AFFINE = [(0.5, -3.0), (2.0, 0.25), (3.0, 100.0)]
 def bounds(tier):
     if tier == "quick":
         return {"tie_free_max": [4, 4], "all_types_max": [3, 3],
-                "easy": [[0, 0], [1, 0], [0, 1], [2, 3], [3, 3], [5, 0], [0, 5]], "grids": ["irregular", "dyadic", "uint", "int8"]}
+                "easy": [[0, 0], [1, 0], [0, 1], [2, 3], [3, 3], [5, 0], [0, 5]], "grids": ["irregular", "dyadic", "uint", "int8", "symmetric"]}
     return {"tie_free_max": [6, 6], "all_types_max": [4, 4],
             "easy": [[0, 0], [1, 0], [0, 1], [2, 3], [3, 3], [5, 0], [0, 5], [1, 7], [7, 2]],
-            "grids": ["irregular", "dyadic", "int", "uint", "int8", "int16"]}
+            "grids": ["irregular", "dyadic", "int", "uint", "int8", "int16", "symmetric", "ulp_pow2"]}
 
 
 def work(tier, seed):
